@@ -105,6 +105,17 @@ func genH(t *rapid.T) (HCase, *env.Env) {
 	default:
 		c.T2 = c.T1 + int64(c.TTL+10)*1000 + segMS*2 + int64(rapid.IntRange(0, 100000).Draw(t, "d"))
 	}
+	if c.Periods > 0 && rapid.Bool().Draw(t, "around-period-boundary") {
+		// multi-period: t1 up to two loops after a period boundary, t2 in the same or in the next period
+		P := int64(3600/c.Periods) * 1000
+		B := (c.T1/P + 1) * P
+		c.T1 = B + int64(rapid.IntRange(0, int(2*e.Asset.LoopMS)).Draw(t, "after-boundary"))
+		c.T2 = c.T1 + rapid.SampledFrom([]int64{1 + int64(e.Asset.LoopMS)/2, int64(e.Asset.LoopMS), int64(e.Asset.LoopMS) + segMS, P - segMS, P, P + segMS}).Draw(t, "boundary-d")
+		c.Pair = "around-period-boundary"
+		if int64(c.TTL)*1000 < c.T2-c.T1 {
+			c.TTL = 600
+		}
+	}
 	if c.T2 <= c.T1 {
 		c.T2 = c.T1 + 1
 	}
